@@ -302,7 +302,7 @@ def gen_item(rng, names=None, want_enum=None, allow_attrs=True, plain=False, abs
             if cand and has_T and allow_attrs and not plain and rng.random() < 0.2:
                 tr = rng.choice(cand)
                 pth = {'Clone': '::core::clone::Clone', 'Debug': '::core::fmt::Debug'}[tr]
-                gen_tys = [t for t in last_types if any(uses(t, p) for p in (T, U, N)) and 'Self' not in t]
+                gen_tys = [t for t in last_types if any(uses(t, p) for p in (T, U, N)) and not uses(t, 'Self')]
                 preds = ', '.join(f'{t}: {pth}' for t in gen_tys)
                 vb = rng.choice([f'#[derive_ex({tr}(bound({preds})))] ', f'#[derive_ex({tr}, bound({preds}))] '])
             vs.append(f'{vb}{mark}{n.variants[i]}{fstr}')
